@@ -268,6 +268,61 @@ def run(ctx, model):
         tr.run_case(ctx, model, lines, pend, "helpers", "C14", scn, "10.0.0.1", True, {}, [b"\x66" * 8],
                     [("open",), ("plcname",), ("setplctime", us), ("plctime",)], check=chk, driver_cls=LogixDriver)
     tr.flush(ctx, model, lines, pend)
+    run_helper_changes(ctx, model)
+
+
+def run_helper_changes(ctx, model):
+    """one driver object, the answers of the target change between calls (a download renames the program, the clock
+    runs): every helper returns what the target answers NOW — get_plc_name twice with another name in between,
+    get_plc_time after the clock was set by someone else — and `info` follows"""
+    import pycomm3.cip_driver as cd
+    from pycomm3 import LogixDriver
+    from props import transcripts as trn
+    rng = ctx.rng
+    for i in range(ctx.budget(20, 200)):
+        shared = trn.SharedNet(model, {})
+        old_sock = cd.Socket
+        cd.Socket = lambda *a, **k: trn.NetSocket(shared)
+        try:
+            class Drv(LogixDriver):
+                open = cd.CIPDriver.open          # session only: no controller initialisation
+            d = Drv("10.0.0.1/bp/0")
+            names = [bytes(rng.choice(b"ABCabc_019") for _ in range(rng.choice([1, 5, 12, 40]))) for _ in range(rng.choice([2, 3]))]
+            times = [rng.getrandbits(50) for _ in names]
+            reopen = rng.random() < 0.5
+            ctx.case("helper-changes", ("hch", i))
+            case = {"index": i, "names": [n.decode("latin-1") for n in names], "times": times, "close_and_reopen_between": reopen}
+            try:
+                for k, (nm, us) in enumerate(zip(names, times)):
+                    assert model.ask("target.new " + fakesock.base_scenario(plc_name=nm, time_us=us)) == "ok"
+                    if k == 0 or reopen:
+                        d.open()
+                    elif k:
+                        # the same TCP connection cannot outlive a replaced target in the double: a fresh session
+                        d.close()
+                        d.open()
+                    for rep in range(2):
+                        got = d.get_plc_name()
+                        if got != nm.decode("latin-1"):
+                            ctx.violation("plc-name-of-an-earlier-answer", dict(case, call=k), "target answers %r, get_plc_name returned %r" % (nm.decode("latin-1"), got))
+                            raise StopIteration
+                    if d.info.get("name") != nm.decode("latin-1"):
+                        ctx.violation("info-name-of-an-earlier-answer", dict(case, call=k), "info['name'] = %r" % (d.info.get("name"),))
+                        raise StopIteration
+                    t = d.get_plc_time()
+                    if not t or t.value["microseconds"] != us:
+                        ctx.violation("plc-time-of-an-earlier-answer", dict(case, call=k), "target clock %d, got %r" % (us, t))
+                        raise StopIteration
+                    if reopen:
+                        d.close()
+            except StopIteration:
+                pass
+            except BaseException as e:  # noqa
+                if isinstance(e, (KeyboardInterrupt, SystemExit)):
+                    raise
+                ctx.violation("helper-call-raises:" + core.exn_class(e), case, repr(e)[:200])
+        finally:
+            cd.Socket = old_sock
 
 
 def replay(ctx, model, data):
